@@ -134,9 +134,9 @@ def run(chk):
             if r0 is not None and name.startswith(("gen", "regress")):
                 found_concrete = True
                 rd = chk.replay_dir("reference-run-failed:" + name)
-                shutil.copytree(d, os.path.join(rd, "prog"))
-                open(os.path.join(rd, "replay.txt"), "w").write("the eager reference run failed: %s\nre-run: %s -dir %s/prog %s\n"
-                                                                 % (json.dumps(r0)[:3000], C.TRUN, rd, ref))
+                pd = C.copy_prog(d, rd)
+                open(os.path.join(rd, "replay.txt"), "w").write("the eager reference run failed: %s\nre-run: %s -dir %s %s\n"
+                                                                 % (json.dumps(r0)[:3000], C.TRUN, pd, ref))
                 chk.violation("tool-failure:" + ref, "the analysis produced no result on generated program %s under %s" % (name, ref), rd)
             continue
         p0 = C.pairs_of(r0)
@@ -150,14 +150,19 @@ def run(chk):
             r = runs.get(s)
             if r is None:
                 continue
+            # every option is compared within its summarisation mode (the eager/on-demand comparison is made once, by the
+            # plain od=1 run); if the on-demand base run is unusable fall back to the eager reference
+            ref_s, r0, p0 = ref, runs[ref], C.pairs_of(runs[ref])
+            if s != "od=1" and s.startswith("od=1") and runs.get("od=1") is not None and C.run_ok(runs["od=1"]):
+                ref_s, r0, p0 = "od=1", runs["od=1"], C.pairs_of(runs["od=1"])
             if not C.run_ok(r):
                 stats["tool_failures"] += 1
                 found_concrete = True
                 rd = chk.replay_dir("tool-failure:%s:%s" % (name, s))
-                shutil.copytree(d, os.path.join(rd, "prog"), ignore=shutil.ignore_patterns("td"))
+                pd = C.copy_prog(d, rd)
                 open(os.path.join(rd, "replay.txt"), "w").write(
-                    "the run under %s failed (timeout=%s panic=%s load=%s) while the reference run %s reports %d pairs\n%s\nre-run: %s -dir %s/prog %s %s\n"
-                    % (s, r.get("timeout"), r.get("panic"), r.get("load_error"), ref, len(p0), "\n".join(r.get("errors", []))[:3000], C.TRUN, rd, ref, s))
+                    "the run under %s failed (timeout=%s panic=%s load=%s) while the reference run %s reports %d pairs\n%s\nre-run: %s -dir %s %s %s\n"
+                    % (s, r.get("timeout"), r.get("panic"), r.get("load_error"), ref_s, len(p0), "\n".join(r.get("errors", []))[:3000], C.TRUN, pd, ref_s, s))
                 chk.violation("tool-failure:" + re.sub(r"pf=[^,]*", "pf", s), "no result under %s on %s (reference has %d pairs)" % (s, name, len(p0)), rd)
                 continue
             p = C.pairs_of(r)
@@ -182,11 +187,11 @@ def run(chk):
                 opt = re.sub(r"pf=[^,]*", "pf=" + ("main-only" if main_re in s else "std-excluded"), s)
                 key = "option-diff:%s:%s" % (name if man is None else "generated", opt)
                 rd = chk.replay_dir(key)
-                shutil.copytree(d, os.path.join(rd, "prog"))
+                pd = C.copy_prog(d, rd)
                 with open(os.path.join(rd, "replay.txt"), "w") as f:
-                    f.write("reported pair sets differ between %s and %s on %s\nonly under %s: %s\nonly under %s: %s\n\nre-run: %s -dir %s/prog %s '%s'\n"
-                            % (ref, s, name, ref, missing[:20], s, extra[:20], C.TRUN, rd, ref, s))
-                chk.violation(key, "pair set under %s differs from %s on %s: %d missing, %d extra" % (s, ref, name, len(missing), len(extra)), rd)
+                    f.write("reported pair sets differ between %s and %s on %s\nonly under %s: %s\nonly under %s: %s\n\nre-run: %s -dir %s %s '%s'\n"
+                            % (ref_s, s, name, ref_s, missing[:20], s, extra[:20], C.TRUN, pd, ref_s, s))
+                chk.violation(key, "pair set under %s differs from %s on %s: %d missing, %d extra" % (s, ref_s, name, len(missing), len(extra)), rd)
             else:
                 k = kind[1]
                 stats["ma_checks"] += 1
@@ -201,10 +206,10 @@ def run(chk):
                        ("more than k=%d pairs (%d)" % (k, len(p)) if len(p) > k else "empty although the unlimited result has %d pairs" % len(p0)))
                 key = "max-alarms:" + ("subset" if not p <= p0 else ("count" if len(p) > k else "empty"))
                 rd = chk.replay_dir(key + ":" + name)
-                shutil.copytree(d, os.path.join(rd, "prog"))
+                pd = C.copy_prog(d, rd)
                 with open(os.path.join(rd, "replay.txt"), "w") as f:
-                    f.write("max-alarms=%d on %s: %s\nlimited  : %s\nunlimited: %s\n\nre-run: %s -dir %s/prog %s %s\n"
-                            % (k, name, why, sorted(p)[:20], sorted(p0)[:20], C.TRUN, rd, ref, s))
+                    f.write("max-alarms=%d on %s: %s\nlimited  : %s\nunlimited: %s\n\nre-run: %s -dir %s %s %s\n"
+                            % (k, name, why, sorted(p)[:20], sorted(p0)[:20], C.TRUN, pd, ref_s, s))
                 chk.violation(key, "max-alarms=%d on %s: %s" % (k, name, why), rd)
 
     # ---------------------------------------------------------------- backtrace: eager vs on-demand trace end points
@@ -242,11 +247,11 @@ def run(chk):
         what = "+".join(sorted(set(k for sc in scs for k in C.atom_keys(sc))))[:120] or "unattributed"
         key = "backtrace-ondemand:%s" % what
         rd = chk.replay_dir(key)
-        shutil.copytree(d, os.path.join(rd, "prog"))
+        pd = C.copy_prog(d, rd)
         with open(os.path.join(rd, "replay.txt"), "w") as f:
             f.write("backtrace analysis on %s: trace end points differ between eager and on-demand summarisation\nonly eager    : %s\nonly on-demand: %s\n"
-                    "scenarios: %s\n\nre-run: %s -dir %s/prog -config %s/prog/config_bt.yaml bt=1,od=0 bt=1,od=1\n"
-                    % (name, only_e[:10], only_l[:10], [C.scen_label(sc) for sc in scs][:10], C.TRUN, rd, rd))
+                    "scenarios: %s\n\nre-run: %s -dir %s -config %s/config_bt.yaml bt=1,od=0 bt=1,od=1\n"
+                    % (name, only_e[:10], only_l[:10], [C.scen_label(sc) for sc in scs][:10], C.TRUN, pd, pd))
         chk.violation(key, "backtrace: %d trace end points only eager, %d only on-demand (%s)" % (len(only_e), len(only_l), name), rd)
 
     # ---------------------------------------------------------------- eager/on-demand differences on generated programs: minimise, key by atom
